@@ -473,6 +473,19 @@ type wireToken struct {
 func (r *registry) doTokenRequest(req *http.Request) (*wireToken, error) {
 	client := &http.Client{
 		Transport: r.transport,
+		CheckRedirect: func(next *http.Request, via []*http.Request) error {
+			if len(via) >= 10 {
+				return errors.New("stopped after 10 redirects")
+			}
+			// A 307 or 308 response makes net/http send the POST again, form
+			// body included, and that body holds the refresh token. Don't let it
+			// travel to a host other than the one that the challenge named:
+			// treat the redirect response as the token server's answer instead.
+			if next.Method == "POST" && next.URL.Host != via[0].URL.Host {
+				return http.ErrUseLastResponse
+			}
+			return nil
+		},
 	}
 	resp, err := client.Do(req)
 	if err != nil {
